@@ -855,6 +855,46 @@ fn failing_send_scenarios(o: &Shared) {
     }
 }
 
+/// many addresses waiting for the application's decision at once (oracle only): every one of them stays
+/// known until it is accepted, rejected or ignored, whatever the others do
+fn many_pending_scenario(o: &Shared) {
+    for n in [17usize, 40, 200] {
+        let id = format!("many-pending-{}", n);
+        let r = guard(|| -> Result<(), String> {
+            let mut cb = FailCb { fail: false, sent: vec![], k: 9 };
+            let mut net: Net<Addr> = Net::server();
+            let mut pids: Vec<PeerId> = vec![];
+            let mut buf = [0u8; protocol::MAX_PACKETSIZE];
+            for a in 0..n {
+                let (ev, res) = net.feed(&mut cb, &mut libtw2_warn::Ignore, Addr(a as u8), if a % 2 == 0 { CONNECT_PACKET } else { CONNECT_PACKET_NO_TOKEN }, &mut buf[..]);
+                let mut pid = None;
+                for e in ev { if let ChunkOrEvent::Connect(p) = e { pid = Some(p); } }
+                res.map_err(|e| e.to_string())?;
+                pids.push(pid.ok_or(format!("no Connect event for address {}", a))?);
+            }
+            let mut d = pids.clone(); d.sort(); d.dedup();
+            if d.len() != pids.len() { return Err("two pending peers share an id".into()); }
+            // decide them oldest first: accept, reject, ignore in turn
+            for (a, pid) in pids.iter().enumerate() {
+                cb.sent.clear();
+                match a % 3 {
+                    0 => { net.accept(&mut cb, *pid).map_err(|e| e.to_string())?; if cb.sent.len() != 1 || cb.sent[0].0 != a as u8 { return Err(format!("accepting address {} sent {:?}", a, cb.sent.iter().map(|x| x.0).collect::<Vec<_>>())); } }
+                    1 => { net.reject(&mut cb, *pid, b"full").map_err(|e| e.to_string())?; if cb.sent.len() != 1 || cb.sent[0].0 != a as u8 { return Err(format!("rejecting address {} sent {:?}", a, cb.sent.iter().map(|x| x.0).collect::<Vec<_>>())); } }
+                    _ => { net.ignore(*pid); }
+                }
+            }
+            Ok(())
+        });
+        let mut g = o.lock().unwrap();
+        g.tick("many-pending", &id);
+        match r {
+            Ok(Ok(())) => g.check(true, "-", &id, String::new),
+            Ok(Err(e)) => g.check(false, "-", &id, || format!("C20 {} addresses pending at once: {}", n, e)),
+            Err(p) => g.check(false, "-", &id, || format!("C20 {} addresses pending at once: panic {}", n, p)),
+        }
+    }
+}
+
 fn main() {
     let a = Args::parse();
     let o: Shared = Arc::new(Mutex::new(Out::new(&a, "labelled histories over one real Net endpoint and 2-4 remote addresses (real Connections as traffic sources; loss, duplication, reordering, garbage, mutations, cross-address replays), application calls and ticks, accepting and non-accepting; every label compared with the Coq model and with independent per-address Connections (isolation oracle). distinct = distinct (operation, accepting?, peer state before > after, result, #datagrams, #events, #warnings) signatures")));
@@ -885,6 +925,7 @@ fn main() {
     let mut r = Rng::new(a.seed ^ 0xc20);
     directed(&a, &o, &mut r);
     failing_send_scenarios(&o);
+    many_pending_scenario(&o);
     let modes: Vec<String> = if a.extra.is_empty() { vec!["server".into(), "client".into(), "mixed".into(), "hostile".into(), "invalid".into()] } else { a.extra[0].split(',').map(|s| s.to_string()).collect() };
     let mut tn = 0;
     for mode in &modes {
